@@ -105,4 +105,11 @@ CHECKS["C07"] = dict(
     note="Timing: 8 s bound vs tens of ms for conforming runs; shapes come from a catalogue, not from arbitrary programs.",
 )
 
+CHECKS["C12"] = dict(
+    technique="TLA+ model of the option lattice and of cache keys vs. baked settings (CacheConfig.tla) checked by TLC; TLC-enumerated lattice points and cache-sharing orders, each runtime executing TLC-generated lone-instance histories (Isolation.tla) whose predicted results and state must hold at every point",
+    text="CacheConfig.tla enumerates the lattice of options documented as non-semantic (no cache / in-memory / directory cold or warm, capacity-from-max, custom allocator, debug info, custom sections, listener factory none / recording / returning nil, close-on-context-done with contexts cancelled only after calls return) and all ordered pairs of one-dimension points sharing an in-memory or on-disk cache, and checks as a design invariant that the module key covers every setting a compilation bakes into its artifact (a violation is reported as a design counterexample, the runs decide). For every scenario the driver builds the real runtimes in that order in a supervised child, compiles the universal guest, and runs lone-instance histories generated from Isolation.tla (globals, memory incl. growth to the limit, table, funcref global, passive data/element segments, traps) comparing every result and the complete instance state with the model - which is also the behaviour at the bottom of the lattice.",
+    design_ref="§4 C12",
+    note="Quick tier samples 200 lattice points and 120 sharing pairs; warm directory caches are warmed by an earlier runtime of the same process.",
+)
+
 NOT_YET = "check not built yet in this round (work in progress; see DESIGN.md §4)"
